@@ -2966,9 +2966,10 @@ void ADFH_Put_Dimension_Information(const double   id,
     set_error(ADFH_ERR_LINK_DATA, err);
     return;
   }
-  for (i = 0; i < 2; i++)
+  /* the type may be shorter than two characters: stop at its end */
+  for (i = 0; i < 2 && data_type[i]; i++)
     new_type[i] = TO_UPPER(data_type[i]);
-  new_type[2] = 0;
+  new_type[i] = 0;
 
   if (0 == strcmp(new_type, ADFH_MT)) {
     if (data_exists(hid))
